@@ -14,7 +14,7 @@ import Emboss.Lemmas.TokBoundary
 import Emboss.Lemmas.TokLongest
 import Emboss.Lemmas.TokSplit
 import Emboss.Lemmas.TokLineSpec
-import Emboss.Lemmas.TokBlankLine
+import Emboss.Lemmas.TokBlankJoin
 import Emboss.Generated.TokTable
 namespace Emboss.Tok
 open Emboss.Regex Emboss.Generated
@@ -341,28 +341,56 @@ theorem C10_concat_with_blank (ln : Nat) (a b : List Char) (c : Char) (ta : List
         .ok (ta ++ tb.map (Token.shift a.length))) ∧
     (∀ k, tokLine tokTable.pats ln (c :: b).length (c :: b) 0 = .err k →
       tokLine tokTable.pats ln (a ++ c :: b).length (a ++ c :: b) 0 = .err (k + a.length)) := by
-  obtain ⟨segsA, hA, rfl⟩ := tokLine_covers _ _ _ _ _ _ ha
-  have hopen' : ∀ t ∈ tokensOf segsA, ¬ OpenEnded t.sym := by
+  have hopen' : ∀ t ∈ ta, ¬ OpenEnded t.sym := by
     intro t ht ho
     obtain ⟨h1, h2, h3⟩ := hopen t ht
     rcases ho with h | h | h
     · exact h1 h
     · exact h2 h
     · exact h3 h
-  constructor
-  · intro tb hb
-    have hb' : tokLine tokTable.pats ln (c :: b).length (c :: b) (0 + a.length) =
-        .ok (tb.map (Token.shift a.length)) := by
-      rw [tokLine_shift, hb]; rfl
-    obtain ⟨segsB, hB, hB2⟩ := tokLine_covers _ _ _ _ _ _ hb'
-    have := (covers_append_blank hA hc hopen' hlast hB).tokLine_eq _ (Nat.le_refl _)
-    rw [this, hB2]
-    simp [tokensOf]
-  · intro k hb
-    have hb' : tokLine tokTable.pats ln (c :: b).length (c :: b) (0 + a.length) = .err (k + a.length) := by
-      rw [tokLine_shift, hb]; rfl
-    exact (stuck_append_blank hA hc hopen' hlast (tokLine_err_stuck _ _ _ _ _ _ hb')).tokLine_eq ln _
-      (Nat.le_refl _)
+  exact tokLine_concat_blank ln a b c ta ha hopen' hlast hc
+
+/-- **Leading blanks are one gap** (regenerated table): a non-empty run of blanks `c :: ws`
+in front of `b` (which is empty or starts with a non-blank) only shifts the columns of `b`'s
+tokens (or of its "Unrecognized token" position) by the length of the run.  Together with
+`C10_concat_with_blank`: `a ++ blanks ++ b` tokenizes to the tokens of `a` and the shifted
+tokens of `b`. -/
+theorem C10_leading_blanks (ln : Nat) (c : Char) (ws b : List Char)
+    (hws : (c :: ws).all isSpaceChar = true) (hb : ∀ y, b.head? = some y → isSpaceChar y = false) :
+    (∀ tb, tokLine tokTable.pats ln b.length b 0 = .ok tb →
+      tokLine tokTable.pats ln (c :: ws ++ b).length (c :: ws ++ b) 0 =
+        .ok (tb.map (Token.shift (c :: ws).length))) ∧
+    (∀ k, tokLine tokTable.pats ln b.length b 0 = .err k →
+      tokLine tokTable.pats ln (c :: ws ++ b).length (c :: ws ++ b) 0 = .err (k + (c :: ws).length)) :=
+  tokLine_blank_prefix ln hws hb
+
+/-- **Pieces joined by single blanks tokenize piecewise** (the separability fact a formatter
+needs).  `ps` = pieces with their own tokenizations: each piece non-empty, starting and ending
+with a non-blank, `tokLine piece = ok toks` (`GoodPiece`); no piece but the last contains an
+open-ended token.  Then the pieces joined by the blank `c` tokenize to the concatenation of the
+pieces' token lists, each shifted to the column where its piece starts (`joinToks`). -/
+theorem C10_join_with_blanks (ln : Nat) (c : Char) (hc : isSpaceChar c = true)
+    (ps : List (List Char × List Token)) (hg : ∀ p ∈ ps, GoodPiece ln p)
+    (ho : ∀ p ∈ ps.dropLast, ∀ t ∈ p.2, t.sym ≠ "Comment" ∧ t.sym ≠ "Documentation" ∧
+      t.sym ≠ "BadDocumentation") :
+    tokLine tokTable.pats ln (joinWith c (ps.map Prod.fst)).length (joinWith c (ps.map Prod.fst)) 0 =
+      .ok (joinToks ps) := by
+  apply tokLine_join ln c hc ps hg
+  intro p hp t ht hopen
+  obtain ⟨h1, h2, h3⟩ := ho p hp t ht
+  rcases hopen with h | h | h
+  · exact h1 h
+  · exact h2 h
+  · exact h3 h
+
+/-- Non-vacuity of `C10_join_with_blanks` (by evaluation): three good pieces, the last one a comment. -/
+example : GoodPiece 1 ("x+1".toList, [⟨"SnakeWord", ['x'], 1, 1, 1, 2⟩, ⟨"\"+\"", ['+'], 1, 2, 1, 3⟩,
+      ⟨"Number", ['1'], 1, 3, 1, 4⟩]) ∧
+    GoodPiece 1 ("\"s t\"".toList, [⟨"String", "\"s t\"".toList, 1, 1, 1, 6⟩]) ∧
+    GoodPiece 1 ("# c".toList, [⟨"Comment", "# c".toList, 1, 1, 1, 4⟩]) ∧
+    joinWith ' ' ["x+1".toList, "\"s t\"".toList, "# c".toList] = "x+1 \"s t\" # c".toList := by
+  refine ⟨⟨by decide, by decide, by decide, by decide +kernel⟩, ⟨by decide, by decide, by decide, by decide +kernel⟩,
+    ⟨by decide, by decide, by decide, by decide +kernel⟩, by decide⟩
 
 /-- Non-vacuity (tests by evaluation): `x+1` and ` "s t" y` are tokenized independently; so are
 `0x_1` and ` ~`, the error moving to offset 5. -/
